@@ -12,7 +12,7 @@ ID = "C17"
 META = {
     "technique": "runtime monitoring: return values of get_tariff/get_tariffs/get_demand_charge, Interface.get_prices and the cost analysis functions compared against a direct interpretation of each JSON tariff file over the whole calendar",
     "design_ref": "DESIGN.md section 6 C17",
-    "level_text": "exploration with an exhaustive calendar part: all 14 calendar types (leap/non-leap x weekday of 1 Jan) x every day x boundary instants (quick) or every minute (thorough) for all five bundled files; vector lookups across midnight/season/year boundaries; interface price vectors and cost functions on real recorded simulations; sub-second instants around every breakpoint, starts off the second grid, vectors of up to 10000 periods, one simulation costed under all five tariffs in one process",
+    "level_text": "exploration with an exhaustive calendar part: all 14 calendar types (leap/non-leap x weekday of 1 Jan) x every day x boundary instants (quick) or every minute (thorough) for all five bundled files; vector lookups across midnight/season/year boundaries; interface price vectors and cost functions on real recorded simulations; sub-second instants around every breakpoint, starts off the second grid, vectors of up to 10000 periods, one simulation costed under all five tariffs in one process; a tariff attached after the first query and replaced mid-run; ports of unequal voltage (peak current and peak power in different periods)",
     "level_note": "the oracle reads the same JSON files (the data are part of the artefact under test; the oracle independently interprets seasons, wrap-around, weekday masks and breakpoints); instants are whole seconds plus sub-second instants around every breakpoint and at the end of the day",
 }
 LEVEL = "exploration"
